@@ -190,11 +190,26 @@ structure DeepCut (input ptx : List Scaffold) (err : Int) : Prop where
   sitesOk : ∀ x ∈ sites input ptx, SiteOk input ptx err x
   unclaimed : ∀ sc ∈ input, UnclaimedOk (claimedKeys input ptx) sc
 
-theorem DeepCut.piece {input ptx err} (h : DeepCut input ptx err) (i : Nat) (hi : i < (allPieces ptx).length) :
+/-- the part of `DeepCut` that does not speak about shared contigs -/
+structure DeepBase (input ptx : List Scaffold) (err : Int) : Prop where
+  names : (input.map (·.name)).Nodup
+  lens : ∀ sc ∈ input, ∀ r ∈ sc.rows, 0 ≤ r.length
+  oids : ∀ sc ∈ input, (C18.ids sc.rows).Nodup
+  errPos : 1 ≤ err
+  scaffolds : ∀ S ∈ ptx, ScaffoldKeep input err S
+  unclaimed : ∀ sc ∈ input, UnclaimedOk (claimedKeys input ptx) sc
+
+theorem DeepCut.base {input ptx err} (h : DeepCut input ptx err) : DeepBase input ptx err :=
+  ⟨h.names, h.lens, h.oids, h.errPos, h.scaffolds, h.unclaimed⟩
+
+theorem DeepBase.piece {input ptx err} (h : DeepBase input ptx err) (i : Nat) (hi : i < (allPieces ptx).length) :
     PieceKeep input err (pieceAt ptx i).2 ∧ PieceFacts input (pieceAt ptx i).2 := by
   obtain ⟨hS, hp⟩ := mem_allPieces (pieceAt_mem ptx i hi).1
   have hk := (h.scaffolds _ hS).pieces _ hp
   exact ⟨hk, pieceFacts input _ h.lens h.oids hk.found⟩
+
+theorem DeepCut.piece {input ptx err} (h : DeepCut input ptx err) (i : Nat) (hi : i < (allPieces ptx).length) :
+    PieceKeep input err (pieceAt ptx i).2 ∧ PieceFacts input (pieceAt ptx i).2 := h.base.piece i hi
 
 /-- the site of a shared key, spelled out -/
 theorem site_cases {input ptx err} (h : DeepCut input ptx err) (k : Key) (hk : k ∈ sharedKeys input ptx) :
